@@ -615,28 +615,28 @@ theorem initFamily_errors :
     invalid dims are an error -/
 theorem vRandom_never_panic (f : Family α) (dims : List Int) (us zs : List α) :
     vRandom f dims us zs ≠ some .panic := by
-  have key : ∀ (c1 c2 : Prop) [Decidable c1] [Decidable c2] (o : Option (List α)),
-      (if c1 then some (Out.err : Out (Tensor α)) else if c2 then some .err
-        else o.map (fun d => .ok ⟨natDims dims, d⟩)) ≠ some .panic := by
+  have key : ∀ (c1 c2 : Prop) (i1 : Decidable c1) (i2 : Decidable c2) (o : Option (List α)),
+      (@ite _ c1 i1 (some (Out.err : Out (Tensor α))) (@ite _ c2 i2 (some .err)
+        (o.map (fun d => .ok ⟨natDims dims, d⟩)))) ≠ some .panic := by
     intro c1 c2 _ _ o
     refine ite_ne (by intro hh; cases hh) (ite_ne (by intro hh; cases hh) ?_)
     cases o with
     | none => intro hh; cases hh
     | some d => intro hh; cases hh
-  cases f <;> exact key _ _ _
+  cases f <;> (unfold vRandom; exact key _ _ _ _ _)
 
 /-- invalid dims make `Full / RandU / RandN` return an error (given valid distribution parameters; invalid
     parameters are an error too) -/
 theorem vRandom_err (f : Family α) (dims : List Int) (us zs : List α) (h : validInputDims dims = false) :
     vRandom f dims us zs = some .err := by
-  have key : ∀ (c1 : Prop) [Decidable c1] (o : Option (Out (Tensor α))),
-      (if c1 then some (Out.err : Out (Tensor α)) else if (!validInputDims dims) = true then some .err else o) = some .err := by
+  have key : ∀ (c1 : Prop) (i1 : Decidable c1) (o : Option (Out (Tensor α))),
+      (@ite _ c1 i1 (some (Out.err : Out (Tensor α))) (if (!validInputDims dims) = true then some .err else o)) = some .err := by
     intro c1 _ o
     rw [h]
     split
     · rfl
     · rfl
-  cases f <;> exact key _ _
+  cases f <;> (unfold vRandom; exact key _ _ _)
 
 /-! ### rejected inputs make the component calls return `err` -/
 
@@ -722,7 +722,9 @@ theorem accAccumulate_err (c : Accuracy) (yp yt : Option Nat) (H : Heap α) :
     rfl
 
 /-- non-vacuity (kernel-checked on `Int`): configuration and input validators on concrete data -/
-example : softmaxOf (α := Int) (some (-1)) = .err ∧ oneInput [] = .err ∧ oneInput [none] = .err ∧
+example : softmaxOf (α := Int) (some (-1)) = .err := softmaxOf_total.2.2 (-1) (by decide)
+
+example : oneInput [] = .err ∧ oneInput [none] = .err ∧
     oneInput [some 0, some 1] = .err ∧ oneInput [some 3] = .ok 3 ∧
     lossValid (#[⟨⟨[2], [1, 2]⟩, {}⟩, ⟨⟨[3], [1, 2, 3]⟩, {}⟩] : Heap Int) .mse (some 0) (some 1) = .err ∧
     lossValid (#[⟨⟨[2], [1, 2]⟩, {}⟩, ⟨⟨[3], [1, 2, 3]⟩, {}⟩] : Heap Int) .mse (some 0) (some 0) = .ok (0, 0) ∧
